@@ -798,6 +798,13 @@ def g_c05(rng, tier, budget):
                         yield ("ppfind %d %s %d %d %d %s %d %s" % (lanes, hx(needle), i1, i2, end_at_guard(fl), hx(sneedle),
                                                                    end_at_guard(H), hx(hay)),
                                dict(family="ppfind-foreign", domain="out", allow_model_ptroob=True))
+                        # no occurrence of the search needle at all (the search runs to the very end:
+                        # the chunk after the last full one), without and with pair-byte candidates
+                        other = [0x7A] * fl
+                        for hay2 in ([0x2E] * H, hay):
+                            yield ("ppfind %d %s %d %d %d %s %d %s" % (lanes, hx(needle), i1, i2, end_at_guard(fl), hx(other),
+                                                                       end_at_guard(H), hx(hay2)),
+                                   dict(family="ppfind-foreign-absent", domain="out", allow_model_ptroob=True))
     # pair offsets close to 255 with needles of 250..290 bytes: min_haystack_len arithmetic
     for lanes in (4, 8):
         for L in (250, 255, 256, 258, 290):
@@ -836,6 +843,19 @@ def g_c05(rng, tier, budget):
                         yield ("ppreal %s %s %s %d %d %d %s %d %s" % (isa, kind, hx(needle), i1, i2, end_at_guard(L), hx(needle),
                                                                       end_at_guard(H), hx(hay)),
                                dict(family="ppreal-" + isa, modelless=True))
+    # real SSE2 / AVX2 `find` with a SHORTER foreign needle that does not occur, haystack lengths
+    # min_haystack_len + k * vector ending at a guard page (the tail after the last full chunk)
+    for isa, B in (("sse2", 16), ("avx2", 32)):
+        for needle in ([0x61] * 20, list(range(0x41, 0x41 + 40)), [0x61, 0x62] * 30):
+            L = len(needle)
+            for (i1, i2) in ((0, 1), (L - 1, 0), (L // 2, L - 1)):
+                minlen = max(L, max(i1, i2) + 16)
+                for H in sorted(set([minlen + k * 16 for k in range(0, 5)] + [minlen + k * 32 for k in range(0, 4)] + [minlen + 1, minlen + 17])):
+                    for sn in ([0x7A], [0x7A] * 3, [0x7A] * (L // 2)):
+                        for hay in ([0x2E] * H, [needle[j % L] for j in range(H)]):
+                            yield ("ppreal %s find %s %d %d %d %s %d %s" % (isa, hx(needle), i1, i2, end_at_guard(len(sn)), hx(sn),
+                                                                          end_at_guard(H), hx(hay)),
+                                   dict(family="ppreal-foreign-" + isa, modelless=True, domain="out"))
     # (vi) Two-Way (safe code apart from is_equal inside Shift)
     for d in ("fwd", "rev"):
         for needle in structured_needles(rng, "quick")[:60]:
@@ -2233,3 +2253,20 @@ def gen_c05_nodebug(rng, tier):
 
 GENERATORS_BASE_C05 = g_c05
 _wrap("C05", gen_c05_nodebug)
+
+
+def gen_c14_prefilter_short(rng, tier):
+    """the prefilters on haystacks SHORTER than the pair offsets / the needle (they document no
+    minimum length for the portable one): must answer, not panic"""
+    for L in (2, 3, 5, 9, 20, 40):
+        needle = [0x61 + (i * 5) % 21 for i in range(L)]
+        for (i1, i2) in sorted(set([(0, 1), (1, 0), (L - 1, 0), (0, L - 1), (L // 2, L - 1), (L - 1, L // 2)])):
+            if i1 == i2 or i1 >= L or i2 >= L:
+                continue
+            for H in range(0, max(i1, i2) + 3):
+                for hay in ([0x2E] * H, [needle[j % L] for j in range(H)], [needle[i1]] * H):
+                    yield ("fbpre %s %d %d %d %s" % (hx(needle), i1, i2, (4096 - H) % 4096, hx(hay)), dict(family="fbpre-short"))
+
+
+_wrap("C14", gen_c14_prefilter_short)
+_wrap("C11", gen_c14_prefilter_short)
